@@ -19,6 +19,9 @@ CONSTANTS
   TrackOrder = TRUE
   WithDemotion = FALSE
   ReadonlyEverywhere = TRUE
+  MaxMigs = 1
+  StaleTableAtStart = FALSE
+  MaxFollowed = 0
 INVARIANTS NoRedirectToFreshNode
 CONSTRAINT HopBound
 CHECK_DEADLOCK FALSE
